@@ -1167,7 +1167,8 @@ class Engine:
         if not self.feas:
             return True
         sol = z3.Solver()
-        sol.set("timeout", 300)
+        sol.set("rlimit", 600000)  # deterministic (about 300 ms idle); wall clock only as a safety net
+        sol.set("timeout", 2000)
         for a in st.pc:
             if self._qf(a):
                 sol.add(a)
